@@ -220,12 +220,12 @@ func c15Run(c *Ctx) {
 		plansFor := func() []struct{ name, in, want string } { Flags{}.Apply(); return c15Plans(set.names) }
 		nplans := len(plansFor())
 		for pi := 0; pi < nplans; pi++ {
-			if pi > 2 && si > 0 && !c.Thorough() && pi != 5 {
+			if pi > 3 && si > 0 && !c.Thorough() && pi != 5 {
 				continue
 			}
 			o := GenOpts{FieldNames: set.names, LeafSet: 2, PlanSummary: plansFor()[pi].in}
 			layers := []sweepLayer{{"L0", o, 0, nil}}
-			if (si == 0 && pi == 3) || (c.Thorough() && pi == 3) {
+			if pi == 3 {
 				o1 := o
 				o1.OneGate = true
 				layers = append(layers, sweepLayer{"L1", o1, 1, nil})
